@@ -229,6 +229,12 @@ def c04(shape: Shape, hist, obs, realisation: str = "", store_kind: str = "local
                             _detail(shape, hist, i, o, path=p, load=lv, expected_value=v,
                                     realisation=realisation)))
                 return res
+            # ... and through the file found under the data directory (local store, DBFS full commit)
+            fv = (o.get("files") or {}).get(p)
+            if fv is not None and ("err" in fv or fv["value"] != v):
+                res.append(("C04|file-under-data-dir|%s|%s|store=%s" % (which, "unreadable:" + fv["err"]["type"] if "err" in fv else "wrong-value", store_kind),
+                            _detail(shape, hist, i, o, path=p, file=fv, expected_value=v, realisation=realisation)))
+                return res
     return res
 
 
